@@ -85,6 +85,8 @@ Section Insert.
     - exact (I_b_hi _ _ _ I).
     - exact (I_b_lo _ _ _ I).
     - exact (I_b_down _ _ _ I).
+    - intros sl Hin. rewrite item_at_insert. destruct (slot_eqb sl (slot_of t)); [discriminate|].
+      apply (I_b_item _ _ _ I). exact Hin.
     - exact (I_pnbs _ _ _ I).
     - intros sl. unfold insert_tx at 1; cbn [arrival set_arrival set_index set_items set_hashmap].
       rewrite (alookup_aset slot_eqb slot_eqb_spec), item_at_insert.
@@ -322,6 +324,10 @@ Section RemoveOld.
     - exact (I_b_hi _ _ _ I).
     - exact (I_b_lo _ _ _ I).
     - exact (I_b_down _ _ _ I).
+    - intros sl Hin. rewrite ro_item. destruct (mem slot_eqb sl slots) eqn:E.
+      + exfalso. apply (mem_In slot_eqb slot_eqb_spec) in E. destruct sl as [a n].
+        apply ro_evicted_hi in E. tauto.
+      + apply (I_b_item _ _ _ I). exact Hin.
     - unfold live_unbatched. rewrite ro_priority.
       replace (ub_pred s' []) with (ub_pred s []) by reflexivity. exact (I_pnbs _ _ _ I).
     - intros sl. rewrite ro_arrival, ro_item.
